@@ -34,14 +34,45 @@ def templates(tier):
 WANT = ({'token-count', 'token-kind', 'token-value-type', 'token-has-payload', 'token-payload', 'error-count', 'error-list', 'reference-in-range', 'returns-ok', 'impl-no-panic'}, ('ref-',))
 
 
+def lint_extra(tier):
+    """Range-lint clause: min/max tables and the literal arms of the linter (lintcheck.py)."""
+    import vtcheck
+    import vtlib
+    import lintcheck
+    from common import write_replay, known_keys, log
+    S = vtcheck.Session(PROP, 2)
+    lintcheck.run(S, tier)
+    known = known_keys(PROP)
+    viol = []
+    for v in S.violations:
+        key = '%s:%s' % (v['query'], v.get('native_request') or vtlib.wire(v['a']))
+        what = '%s fails: %s -> %s (%s)' % (v['query'], v.get('native_request') or vtlib.wire(v['a']),
+                                             v.get('native_answer'), v['statement'])
+        if not v.get('confirmed'):
+            S.confirm(v)
+        if key in known:
+            log('KNOWN-FINDING: property=%s %s' % (PROP, what))
+            continue
+        rp = write_replay(PROP, key, {'property': PROP, 'query': v['query'], 'statement': v['statement'],
+                                      'request': v.get('native_request'), 'native': v.get('native_answer'),
+                                      'type': vtlib.wire(v['a'])})
+        viol.append((what, rp))
+    return {'queries': [dict(q, template='range-lint') for q in S.queries], 'violations': viol, 'validated': S.validated,
+            'functions': S.functions, 'solver_s': S.solver_s, 'exec_s': S.exec_s, 'blocks': int(S.ex.stats['blocks']),
+            'models_used': dict(S.ex.used_models),
+            'coverage': {'range_lint': 'min_i128/max_u128 proved equal to the integer ranges for every type; the literal arms '
+                                       'of <Expression as Lintable>::lint proved to push L1142 iff the value is out of range, '
+                                       'for every i128/u128 value and every integer type, char8 and pointer-like type'}}
+
+
 def run(tier):
     return lexcheck.run_suite(
         PROP, tier, templates(tier), WANT,
         'Boundary literal templates (largest decimal decade, 32 hex digits, 128 binary digits, every suffix stem, escape '
         'forms) completed by 2-4 symbolic bytes; the real second-generation lexer and the reference are executed '
         'symbolically and the solver decides that kind, suffix type, value and error code agree for every completion.',
-        ['first-generation lexing', 'unary minus folding and the L1142 lint (parser/linter)', 'run-time values in emitted IR'],
-        20 if tier == 'quick' else 100)
+        ['first-generation lexing', 'unary minus folding in the parser', 'run-time values in emitted IR'],
+        20 if tier == 'quick' else 100, extra=lint_extra)
 
 
 def replay_file(path):
